@@ -660,11 +660,23 @@ fn apply(b: &Built, region: u8, byte: usize, xor: u8, with: u8) -> Option<(Vec<u
 }
 
 fn eval_mut(ctx: &Ctx, acc: &mut Acc, case: &Case, t: &Tok, b: &Built, region: u8, sig: u8, byte: usize, xor: u8, with: u8) {
+  eval_mut_w(ctx, acc, case, t, b, region, sig, byte, xor, with, true)
+}
+/// `warm`: verify the unmutated token first (always on replay and in the sequential pass; in the parallel sweep once per
+/// byte position — the mutants of one byte follow it in the same thread and, being rejected, leave nothing behind).
+#[allow(clippy::too_many_arguments)]
+fn eval_mut_w(ctx: &Ctx, acc: &mut Acc, case: &Case, t: &Tok, b: &Built, region: u8, sig: u8, byte: usize, xor: u8, with: u8, warm: bool) {
   let Some((token, det)) = apply(b, region, byte, xor, with) else {
     return;
   };
   acc.evals += 1;
   let ep = SER[t.ser as usize];
+  // "of a verified token": the token itself is verified immediately before its mutant, in this thread — a verifier
+  // that remembers something about its last success (a memo keyed by less than the whole input) is then exercised
+  // in the one order that matters, and a replay of this case alone repeats that order
+  if warm {
+    let _ = guard(|| real_verify(t, b, &b.token, b.detached.as_deref()));
+  }
   let kind = if xor != 0 { "single-bit-flip" } else { "byte-substitution" };
   let rn = REGION[region as usize];
   match guard(|| real_verify(t, b, &token, det.as_deref())) {
@@ -713,12 +725,12 @@ fn sweep(ctx: &Ctx, acc: &mut Acc, t: &Tok, subst: &[u8]) -> u64 {
     for byte in range {
       for bit in 0..8u8 {
         let c = Case::Mut { t: t.clone(), region, sig, byte: byte as u32, xor: 1 << bit, with: 0 };
-        eval_mut(ctx, acc, &c, t, &b, region, sig, byte, 1 << bit, 0);
+        eval_mut_w(ctx, acc, &c, t, &b, region, sig, byte, 1 << bit, 0, bit == 0);
       }
       {
         for &w in subst {
           let c = Case::Mut { t: t.clone(), region, sig, byte: byte as u32, xor: 0, with: w };
-          eval_mut(ctx, acc, &c, t, &b, region, sig, byte, 0, w);
+          eval_mut_w(ctx, acc, &c, t, &b, region, sig, byte, 0, w, false);
         }
       }
     }
@@ -1305,6 +1317,29 @@ fn generate(ctx: &Ctx) {
     base.extend(toks(&[1, 2], &[0], &[1, 6], &[0]));
   } else {
     base = toks(&[0, 1, 2], &[0, 1, 2, 3], &all, &[0]);
+  }
+  // (b0) one thread, nothing else running: every baseline token is verified and then, straight away, its first
+  // single-bit mutant of every region — deterministic even if a verifier keeps process-wide state between calls
+  {
+    let mut acc = Acc::default();
+    let mut n = 0u64;
+    for t in &base {
+      let Some(b) = build(t, false, None) else { continue };
+      for (region, sig, range) in regions(t, &b) {
+        if let Some(byte) = range.clone().next() {
+          let c = Case::Mut { t: t.clone(), region, sig, byte: byte as u32, xor: 1, with: 0 };
+          eval_mut(ctx, &mut acc, &c, t, &b, region, sig, byte, 1, 0);
+          n += 1;
+        }
+        if let Some(byte) = range.last() {
+          let c = Case::Mut { t: t.clone(), region, sig, byte: byte as u32, xor: 0x80, with: 0 };
+          eval_mut(ctx, &mut acc, &c, t, &b, region, sig, byte, 0x80, 0);
+          n += 1;
+        }
+      }
+    }
+    acc.flush(ctx);
+    account(ctx, "(b0) sequential pass: token verified, then its mutant, one thread", n, json!({"engine":"E1 full product","mutants": n, "baseline_tokens": base.len()}));
   }
   let swept = std::sync::atomic::AtomicU64::new(0);
   let tokens = std::sync::atomic::AtomicU64::new(0);
